@@ -639,6 +639,9 @@ def inv(b):
     return mul(_inv_atom(bn), 1 / lead)
 
 
+INV_INV = True
+
+
 def _inv_atom(bn):
     c = _ctx.cur()
     # 1/exp(u) = exp(-u)
@@ -648,7 +651,7 @@ def _inv_atom(bn):
             u = SymReal(dict(c.atom_keys[m[0][0]][1]))
             return lift(exp(mul(-1.0, u)))
         # 1/(1/b) = b   (b != 0 is the inner atom's own side condition)
-        if len(m) == 1 and m[0][1] == 1 and co == 1 and c.atom_keys[m[0][0]][0] == 'inv':
+        if INV_INV and len(m) == 1 and m[0][1] == 1 and co == 1 and c.atom_keys[m[0][0]][0] == 'inv':
             return SymReal(dict(c.atom_keys[m[0][0]][1]))
     k = ('inv', bn.key())
     idx = c.atom_by_key.get(k)
@@ -1097,7 +1100,7 @@ def _log_exp_cross(c, L, X, V, u):
                                         z3.Implies(X == V, L == u))))
 
 
-def _exp_point_axiom(c, v, az, xc, yc):
+def _exp_point_axiom(c, v, az, xc, yc, tangent=False):
     """Monotonicity against a concrete point (x_c, fl(exp x_c)); 4 ulp slack for libm."""
     xz = _rv(Fr(xc))
     lo = _rv(Fr(yc) * (1 - Fr(1, 2 ** 50)))
@@ -1106,8 +1109,9 @@ def _exp_point_axiom(c, v, az, xc, yc):
     d = Fr(1, 10 ** 6)
     c.add_axiom(z3.And(z3.Implies(az <= _rv(Fr(xc) + d), v <= _rv(Fr(yc) * (1 + 2 * d))),
                        z3.Implies(az >= _rv(Fr(xc) - d), v >= _rv(Fr(yc) * (1 - 2 * d)))))
-    # convexity: the tangent at the point lies below the graph everywhere (linear axiom)
-    c.add_axiom(v >= lo * (1 + az - xz))
+    if tangent:
+        # convexity: the tangent at the point lies below the graph everywhere (linear)
+        c.add_axiom(v >= lo * (1 + az - xz))
 
 
 def note_exp_point(x, y, force=False):
@@ -1127,14 +1131,14 @@ def note_exp_point(x, y, force=False):
         return False
     c.exp_points.append((x, y))
     for (idx, arg) in c.fun_atoms.get('exp', []):
-        _exp_point_axiom(c, c.atoms[idx], arg.z3(), x, y)
+        _exp_point_axiom(c, c.atoms[idx], arg.z3(), x, y, tangent=force)
     # the same point constrains log atoms: log(t) vs x at t = y
     for (idx, arg) in c.fun_atoms.get('log', []):
-        _log_point_axiom(c, c.atoms[idx], arg.z3(), y, x)
+        _log_point_axiom(c, c.atoms[idx], arg.z3(), y, x, tangent=force)
     return True
 
 
-def _log_point_axiom(c, v, az, tc, lc):
+def _log_point_axiom(c, v, az, tc, lc, tangent=False):
     tz_lo = _rv(Fr(tc) * (1 - Fr(1, 2 ** 50)))
     tz_hi = _rv(Fr(tc) * (1 + Fr(1, 2 ** 50)))
     lz = _rv(Fr(lc))
@@ -1145,8 +1149,9 @@ def _log_point_axiom(c, v, az, tc, lc):
     c.add_axiom(z3.And(z3.Implies(az >= _rv(Fr(tc) * (1 - d)), v >= _rv(Fr(lc) - 2 * d)),
                        z3.Implies(z3.And(az > 0, az <= _rv(Fr(tc) * (1 + d))),
                                   v <= _rv(Fr(lc) + 2 * d))))
-    # concavity: the tangent at the point lies above the graph (linear axiom)
-    c.add_axiom(z3.Implies(az > 0, v <= _rv(Fr(lc) + 2 * d) + az * _rv(1 / Fr(tc)) - 1))
+    if tangent:
+        # concavity: the tangent at the point lies above the graph (linear)
+        c.add_axiom(z3.Implies(az > 0, v <= _rv(Fr(lc) + 2 * d) + az * _rv(1 / Fr(tc)) - 1))
 
 
 def log(a):
@@ -1174,8 +1179,6 @@ def log(a):
         for (xc, yc) in c.exp_points:
             _log_point_axiom(c, v, az, yc, xc)
         c.add_axiom(z3.Implies(az > 0, v <= az - 1))
-        # log x >= 1 - 1/x for every x > 0 (the mirror image of e^u (1-u) <= 1)
-        c.add_axiom(z3.Implies(az > 0, az * v >= az - 1))
         c.add_axiom(z3.Implies(az > 1, v > 0))
         c.add_axiom(z3.Implies(z3.And(az > 0, az < 1), v < 0))
         c.add_axiom(z3.Implies(az == 1, v == 0))
